@@ -118,6 +118,8 @@ void proceed_question(int delay) { (void) delay; }
 char *getenv(const char *name) { (void) name; return 0; }
 int isatty(int fd) { (void) fd; return 0; }
 int access(const char *path, int mode) { (void) path; (void) mode; return -1; }
+/* STUB: sprintf() (e2p_feature2string names an unnamed feature bit for the refusal message): output formatting is not the subject */
+int sprintf(char *buf, const char *fmt, ...) { (void) fmt; buf[0] = 0; return 0; }
 #endif
 
 /* "freshly checked" as tune2fs(8) puts it: marked valid, no error flag, checked after the last mount */
@@ -278,7 +280,11 @@ int main(void)
 #elif REQ == 9		/* ^extent */
 	PROP(rc == 1, "clearing extent is not supported");
 	PROP(n[0] == o[0] && n[1] == o[1] && n[2] == o[2], "refused request leaves the feature words alone");
-#elif REQ == 10 || REQ == 17	/* none / clear: only PERMISSION above */
+#elif REQ == 10 || REQ == 17	/* none / clear: PERMISSION above; a clear of every set feature */
+	if ((o[0] & ~clear_ok_features[0]) || (o[1] & ~clear_ok_features[1]) || (o[2] & ~clear_ok_features[2])) {
+		PROP(rc == 1, "none / clear is refused when a feature that is set may not be cleared by tune2fs");
+		PROP(n[0] == o[0] && n[1] == o[1] && n[2] == o[2], "refused request leaves the feature words alone");
+	}
 #elif REQ == 11		/* ^flex_bg */
 	if (!(o[1] & I_FLEX_BG))
 		PROP(rc == 0 && n[1] == o[1], "already clear");
